@@ -29,6 +29,7 @@ import Driver.PoolConc
 import Driver.RWLock
 import Driver.KTableConc
 import Driver.Stop
+import Driver.MemPoolConc
 import Driver.KeyId
 import Driver.UnitMapLock
 
@@ -68,6 +69,7 @@ def main (args : List String) : IO UInt32 := do
   | ["rwlock"] => Driver.RWLock.main; return 0
   | ["ktableconc"] => Driver.KTableConc.main; return 0
   | ["stop"] => Driver.Stop.main; return 0
+  | ["mempoolconc"] => Driver.MemPoolConc.main; return 0
   | ["keyid"] => Driver.KeyId.main; return 0
   | ["unitmaplock"] => Driver.UnitMapLock.main; return 0
   | _ => IO.eprintln "usage: driver <model>  (htable)"; return 2
